@@ -1,6 +1,7 @@
 import Martian.Lemmas.Proxy
 import Martian.Lemmas.ProxyTrace
 import Martian.Lemmas.ProxyState
+import Martian.Lemmas.Chunked
 /-!
 C01 — HTTP/1 relay preserves every request and response, one-to-one and in order.
 In the model parsed messages are records and the codec (`net/http`) is the identity on them, so
@@ -99,6 +100,28 @@ theorem closes_iff_asked (rc : Bool) (st : Nat) (cl : Bool) :
 theorem next_request_served_iff (s : St) (i : Nat) (it : Item) (c : Nat) :
     (handleItem sd s i c it).2.isAgain = !endsConn sd it :=
   again_iff_not_ends sd s i c it
+
+/-! ### Body framing: the one part of the codec that is modelled
+
+`MessageView.dechunk` transcribes net/http's chunked reader (it is compared with
+`httputil.NewChunkedReader` on every run, op `golib.dechunk`). However an origin - or the relay
+itself, re-framing with arbitrary write sizes - cuts a body into chunks, the reader of the next hop
+gets the same bytes. -/
+
+/-- Any chunking of a body decodes to exactly that body, whatever follows on the connection. -/
+theorem chunked_body_identical_for_every_chunking (chunks : List Bytes) (hne : ∀ c ∈ chunks, c ≠ [])
+    (rest : Bytes) :
+    MessageView.dechunk (MessageView.chunkStream chunks ++ rest) = some chunks.flatten :=
+  MessageView.dechunk_chunkStream chunks hne rest
+
+/-- Re-chunking by the relay cannot change the body: two chunkings of the same bytes read the same. -/
+theorem rechunking_by_the_relay_preserves_body (cs cs' : List Bytes) (h : cs.flatten = cs'.flatten)
+    (hne : ∀ c ∈ cs, c ≠ []) (hne' : ∀ c ∈ cs', c ≠ []) (rest rest' : Bytes) :
+    MessageView.dechunk (MessageView.chunkStream cs ++ rest) =
+      MessageView.dechunk (MessageView.chunkStream cs' ++ rest') :=
+  MessageView.rechunking_preserves_body cs cs' h hne hne' rest rest'
+
+example : ∀ c ∈ [strBytes "ab", strBytes "c"], c ≠ ([] : Bytes) := by decide
 
 /-! Non-vacuity (tests): three pipelined exchanges, the second asking to close. -/
 example : numReads (runConn false 0 [.x false .pass .pass (.ok 200 false), .x true .pass .pass (.ok 404 false),
